@@ -74,6 +74,15 @@ def _std(ctx, PP):
 
 
 def run(ctx):
+    # first the scripted-input flap scenarios on their own (deterministic: every flap is ONE OnUpdates call)
+    P0 = dict(P)
+    P0["design"] = []
+    P0["gen"] = None
+    P0["driver"] = dict(P["driver"], env={"VERIF_MODE": "flaps"})
+    P0["n_random"] = (24, 240)
+    _std(ctx, P0)
+    if ctx.violations:
+        return
     P1 = dict(P)
     if os.environ.get("VERIF_NODESIGN"):      # development aid for mutation campaigns: legs A+B only
         P1["design"] = []
